@@ -479,10 +479,29 @@ func gen(c *ex.Ctx) {
 			c.Fail("vxfw/list/list.go: Dynamic.insertChildren: %d recognised break conditions after the insertion, want 1", foundBreak)
 		}
 	}
+	// repairs F119b/c/d: presence of the repaired statements (interim textual recognition)
+	has := func(fn, text string) bool {
+		fd := ex.FindFunc(d, "Dynamic", fn)
+		return fd != nil && strings.Contains(normStr(c.Src(fd.Body)), normStr(text))
+	}
+	clampTop := has("Draw", "for d.scroll.top > 0 && d.Builder(d.scroll.top, d.cursor) == nil { d.scroll.top -= 1 d.scroll.offset = 0 }")
+	gapSites := []bool{
+		has("Draw", "ah = last.Origin.Row + int(last.Surface.Size.Height) + d.Gap"),
+		has("Draw", "ch.Origin.Row+int(ch.Surface.Size.Height)+d.Gap > 0"),
+		has("insertChildren", "ah -= int(s.Size.Height) + d.Gap"),
+		has("insertChildren", "row += int(ch.Surface.Size.Height) + d.Gap"),
+	}
+	gapAbove := gapSites[0]
+	for _, g := range gapSites {
+		if g != gapAbove {
+			c.Fail("vxfw/list/list.go: Dynamic counts d.Gap at some but not all of the four upward-scroll sites: %v", gapSites)
+		}
+	}
+	revealAbove := has("Draw", "} else if ch.Origin.Row < 0 { adj := -ch.Origin.Row")
 	// everything else the hand-written model transcribes is pinned by a digest of its normalised
 	// source (the cursor-gutter condition replaced by a placeholder)
 	want := map[string]string{
-		"Draw": "8e1973df1f77c317", "insertChildren": "512a0a3ef44c3010", "NextItem": "8e80839a17f62206",
+		"Draw": "b0f876164438b672", "insertChildren": "d1bd4cf0bad11dab", "NextItem": "8e80839a17f62206",
 		"PrevItem": "74bcf84bf73521a0", "ensureScroll": "81dabf4a2c39627a", "SetCursor": "fd70cda53d473a1e",
 		"SetPendingScroll": "2f8d3b205c29da46", "HandleEvent": "4008face951abae6", "CaptureEvent": "9022d9aae43be6e0",
 		"Cursor": "16a4f696940a09df", "Offset": "a1fd1f518813ca53",
@@ -498,6 +517,9 @@ func gen(c *ex.Ctx) {
 			c.Fail("vxfw/list/list.go: Dynamic.%s changed (digest %s, the model transcribes %s): re-read the function and update Model/DynList.lean", nm, got, want[nm])
 		}
 	}
+	fmt.Fprintf(&sb, "\n/-- `Draw` starts by walking `scroll.top` back to a widget the Builder still returns (repair F119b). -/\ndef dynClampTop : Bool := %v\n", clampTop)
+	fmt.Fprintf(&sb, "\n/-- `insertChildren`, the accumulated height after it and the final re-anchoring loop count `d.Gap` (repair F119c). -/\ndef dynGapAbove : Bool := %v\n", gapAbove)
+	fmt.Fprintf(&sb, "\n/-- The wants-cursor block moves a cursored widget that starts above row 0 down to row 0 (repair F119d). -/\ndef dynRevealAbove : Bool := %v\n", revealAbove)
 	fmt.Fprintf(&sb, "\n/-- `insertChildren` stops inserting as soon as the accumulated height is used up (`|| ah <= 0` in the break after an insertion), so that `scroll.top` is the first inserted widget. -/\ndef dynInsertStops : Bool := %v\n", insertStops)
 	fmt.Fprintf(&sb, "\n/-- The cursor-gutter block of `Dynamic.Draw` tests `d.cursor >= d.scroll.top &&` before indexing. -/\ndef dynCursorGuard : Bool := %v\n", dynGuard)
 
